@@ -14,6 +14,7 @@ import (
 	"bytes"
 	"flag"
 	"fmt"
+	"math"
 	"os"
 	"os/exec"
 	"path/filepath"
@@ -620,9 +621,63 @@ func childCPU(pid int) time.Duration {
 	return time.Duration(ut+stt) * 10 * time.Millisecond
 }
 
-// runDeep parses deep-nesting inputs in child processes; budget is CPU time per child
-// (the wall-clock cap is 10x the budget; hitting it without using the CPU budget is
-// inconclusive, not a hang).
+// deepRun parses one deep input in a child process.  verdict: "done", "overflow", "crash",
+// "budget" (CPU budget exhausted), "inconclusive" (wall cap = 10x budget hit without using
+// the CPU budget: starved by machine load).  cpu is the CPU time the child used.
+func deepRun(kind string, depth int, budget time.Duration) (verdict string, cpu time.Duration, detail string) {
+	cmd := exec.Command(os.Args[0], "-deepchild", kind, "-deepn", fmt.Sprint(depth))
+	var buf bytes.Buffer
+	cmd.Stdout, cmd.Stderr = &buf, &buf
+	if err := cmd.Start(); err != nil {
+		return "inconclusive", 0, err.Error()
+	}
+	done := make(chan error, 1)
+	go func() { done <- cmd.Wait() }()
+	start := time.Now()
+	var err error
+wait:
+	for {
+		select {
+		case err = <-done:
+			break wait
+		case <-time.After(300 * time.Millisecond):
+			c := childCPU(cmd.Process.Pid)
+			if c > budget {
+				verdict = "budget"
+			} else if time.Since(start) > 10*budget {
+				verdict = "inconclusive"
+			}
+			if verdict != "" {
+				cmd.Process.Kill()
+				<-done
+				return verdict, c, ""
+			}
+		}
+	}
+	if ps := cmd.ProcessState; ps != nil {
+		cpu = ps.UserTime() + ps.SystemTime()
+	}
+	s := buf.String()
+	switch {
+	case strings.Contains(s, "deep-done"):
+		return "done", cpu, ""
+	case strings.Contains(s, "stack overflow") || strings.Contains(s, "goroutine stack exceeds"):
+		return "overflow", cpu, ""
+	}
+	if len(s) > 300 {
+		s = s[:300]
+	}
+	return "crash", cpu, fmt.Sprintf("child failed: %v %s", err, s)
+}
+
+// runDeep probes the deep-nesting shapes in child processes, self-calibrating: each shape is
+// first run at a small depth d0 and at 4*d0, the growth exponent of the CPU time is estimated
+// (clamped to [1, 3]: parsing nested scopes is legitimately quadratic, and the Go runtime's
+// stack scanning adds to it), and the time for the target depth is projected.  If the projection
+// exceeds the base budget the target depth is reduced to what the budget allows.  Only a run
+// that burns 5x its projected CPU time (and at least the base budget) counts as a hang — which a
+// parser that merely grows polynomially cannot do, while a real endless loop exhausts the
+// budget already at the small depths.  A polynomial-time parse is never reported.
 func runDeep(n int, budget time.Duration, only []string) {
 	kinds := make([]string, 0)
 	for k := range deepInputs(1) {
@@ -633,64 +688,78 @@ func runDeep(n int, budget time.Duration, only []string) {
 		kinds = only
 	}
 	for _, k := range kinds {
-		depth := n
-		if k == "ifelse" || k == "funclit" || k == "blocks" {
-			// one scope per level: identifier resolution walks all of them, time is quadratic in
-			// the depth (terminates; not what this probe looks for)
-			depth = n / 20
+		report := func(verdict string, depth int, limit time.Duration, detail string) bool {
+			id := []byte(fmt.Sprintf("%s x %d", k, depth))
+			switch verdict {
+			case "done":
+				return true
+			case "budget":
+				oracle("hang-deep-"+k, "deep:"+k, id, fmt.Sprintf("no result within %v of CPU time (5x the time projected from smaller depths, at least the base budget)", limit))
+			case "inconclusive":
+				out.Count("deep_inconclusive_wall_cap_" + k) // starved by machine load: no verdict
+			case "overflow":
+				out.Count("deep_stack_overflow_" + k)
+				oracle("stack-overflow-deep-nesting", "deep:"+k, id, "fatal error: stack overflow (goroutine stack limit 256 MB) at nesting depth "+fmt.Sprint(depth))
+			default:
+				oracle("crash-deep-"+k, "deep:"+k, id, detail)
+			}
+			return false
 		}
-		cmd := exec.Command(os.Args[0], "-deepchild", k, "-deepn", fmt.Sprint(depth))
-		var buf bytes.Buffer
-		cmd.Stdout, cmd.Stderr = &buf, &buf
-		if err := cmd.Start(); err != nil {
-			out.Count("deep_inconclusive_start_failed")
+		d0 := n / 64
+		if d0 < 500 {
+			d0 = 500
+		}
+		if 4*d0 > n {
+			d0 = n / 4
+		}
+		v0, t0, det := deepRun(k, d0, budget)
+		if !report(v0, d0, budget, det) {
 			continue
 		}
-		done := make(chan error, 1)
-		go func() { done <- cmd.Wait() }()
-		var err error
-		verdict := ""
-		start := time.Now()
-	wait:
-		for {
-			select {
-			case err = <-done:
-				break wait
-			case <-time.After(300 * time.Millisecond):
-				if cpu := childCPU(cmd.Process.Pid); cpu > budget {
-					verdict = "hang"
-				} else if time.Since(start) > 10*budget {
-					verdict = "inconclusive"
-				}
-				if verdict != "" {
-					cmd.Process.Kill()
-					<-done
-					break wait
-				}
+		v1, t1, det := deepRun(k, 4*d0, budget)
+		if !report(v1, 4*d0, budget, det) {
+			continue
+		}
+		// exponent of growth between d0 and 4*d0 (timer resolution: floor of 20 ms)
+		floor := 20 * time.Millisecond
+		if t0 < floor {
+			t0 = floor
+		}
+		if t1 < t0 {
+			t1 = t0
+		}
+		e := math.Log(float64(t1)/float64(t0)) / math.Log(4)
+		if e < 1 {
+			e = 1
+		}
+		e += 0.3 // margin against an exponent under-estimated from two noisy points
+		if e > 3 {
+			e = 3
+		}
+		target := n
+		proj := time.Duration(float64(t1) * math.Pow(float64(target)/float64(4*d0), e))
+		if proj > budget {
+			// a healthy parser would need more than the base budget: probe the depth the budget allows
+			target = int(float64(4*d0) * math.Pow(float64(budget)/float64(t1), 1/e))
+			if target < 4*d0 {
+				target = 4 * d0
+			}
+			proj = time.Duration(float64(t1) * math.Pow(float64(target)/float64(4*d0), e))
+			out.Count("deep_depth_reduced_" + k)
+		}
+		out.Stats["deep_exponent_x100_"+k] = int(e * 100)
+		out.Stats["deep_target_depth_"+k] = target
+		limit := 5 * proj
+		if limit < budget {
+			limit = budget
+		}
+		if target > 4*d0 {
+			v2, _, det := deepRun(k, target, limit)
+			if !report(v2, target, limit, det) {
+				continue
 			}
 		}
-		if verdict == "hang" {
-			oracle("hang-deep-"+k, "deep:"+k, []byte(fmt.Sprintf("%s x %d", k, depth)), "no result within "+budget.String()+" of CPU time")
-			continue
-		}
-		if verdict == "inconclusive" {
-			out.Count("deep_inconclusive_wall_cap_" + k) // starved by machine load: no verdict
-			continue
-		}
-		ob := buf.Bytes()
-		s := string(ob)
-		switch {
-		case strings.Contains(s, "deep-done"):
-			out.Count("deep_ok_" + k)
-		case strings.Contains(s, "stack overflow") || strings.Contains(s, "goroutine stack exceeds"):
-			out.Count("deep_stack_overflow_" + k)
-			oracle("stack-overflow-deep-nesting", "deep:"+k, []byte(fmt.Sprintf("%s x %d", k, depth)), "fatal error: stack overflow (goroutine stack limit 256 MB) at nesting depth "+fmt.Sprint(depth))
-		default:
-			if len(s) > 300 {
-				s = s[:300]
-			}
-			oracle("crash-deep-"+k, "deep:"+k, []byte(fmt.Sprintf("%s x %d", k, depth)), fmt.Sprintf("child failed: %v %s", err, s))
-		}
+		out.Count("deep_ok_" + k)
 	}
 }
 
@@ -738,10 +807,13 @@ func main() {
 				var k string
 				var n int
 				fmt.Sscanf(string(src), "%s x %d", &k, &n)
-				if k == "ifelse" || k == "funclit" || k == "blocks" {
-					n *= 20 // runDeep divides the depth of scope-opening shapes by 20
+				v, cpu, det := deepRun(k, n, 5*time.Minute)
+				fmt.Println("deep", k, n, v, cpu, det)
+				if v == "overflow" {
+					oracle("stack-overflow-deep-nesting", "deep:"+k, src, "fatal error: stack overflow")
+				} else if v == "budget" {
+					oracle("hang-deep-"+k, "deep:"+k, src, "no result within 5m of CPU time")
 				}
-				runDeep(n, 60*time.Second, []string{k})
 			}
 		case fs[0] == "adv" && len(fs) >= 4:
 			src, _ := vh.UnHex(fs[len(fs)-1])
